@@ -1,4 +1,5 @@
 import ServlinVerif.Props.C12
+import ServlinVerif.Props.C13
 open Servlin.Server
 #print axioms C12_drop_returns
 #print axioms C12_take_iff
@@ -8,3 +9,4 @@ open Servlin.Server
 #print axioms C12_conserved
 #print axioms C12_accept_failure_free
 #print axioms C12_full_again
+#print axioms C12_full_no_accept
